@@ -543,6 +543,7 @@ fn gen(dir: &str) {
             let (akind, alen) = gen_addr(&mut r);
             let mut od = OutD { akind, alen, coin: 0, ma: vec![], dat: gen_dat(&mut r, false), sref: if r.chance(1, 5) { gen_sref(&mut r, false) } else { plain_sref() } };
             od.coin = min_ada_of(&od, cpb).unwrap_or(1_000_000).saturating_add(r.below(3) * r.below(1_000_000));
+            if r.chance(1, 14) { od.coin = od.coin.saturating_sub(1 + r.below(2) * r.below(1000)); }   // a requested output below its minimum
             outs.push(od);
         }
         let (ck, cl) = if stream == 4 { // long change addresses for the top-up clause
@@ -582,6 +583,7 @@ fn gen(dir: &str) {
             let (akind, alen) = gen_addr(&mut r);
             let mut od = OutD { akind, alen, coin: 0, ma: gen_ma(&mut r, false), dat: gen_dat(&mut r, false), sref: gen_sref(&mut r, false) };
             od.coin = min_ada_of(&od, 4310).unwrap_or(1_000_000);
+            if r.chance(1, 20) { od.coin -= 1; }
             body.push_str(&format!(" {}", show_out(&od)));
         }
         body.push_str(&format!(" F {}", r.range(150_000, 5_000_000_000)));
